@@ -99,6 +99,7 @@ func c02(r *core.Run) {
 	r.Rule("N1", "no drop / no duplicate: in enqueue every path past the started-check that reaches a return has stored the callback exactly once (append to the pending item, or new item holding it pushed on the work queue); refusal returns are only the not-started / closing edges", 2)
 	r.Rule("N2", "wake-up: every push on S.workqueue is followed on all paths by Signal/Broadcast on the worker condition; Cond.Wait sits in a loop that re-checks the queue", 2)
 	r.Rule("O1", "single sequential listener: request handling is called only from the listener loop, the listener only from serve by a plain call on the channel stored as the in-channel, and there is no go statement on the call path serve ->* enqueue", 4)
+	r.Rule("H1", "no orphaned work items across restarts (shared with C01.H1): the group registry is re-created before the workers of a run start and the service is stopped only after all workers exited; otherwise an entry left by a Shutdown with queued work survives, later submissions for that group are appended to a work item no worker owns and never run", 2)
 	r.Rule("A2", "order across producers: the lookup of a group's pending work item and the register/append that follows are one critical section (same obligations as C01.A2): otherwise two producers can create two work items for one group and later submissions overtake earlier ones", 4)
 	r.Rule("W1", "With: Resource returns a non-nil error exactly on the no-handler edge; With returns that error without reaching enqueue and otherwise reaches enqueue exactly once and returns nil", 4)
 
@@ -323,7 +324,9 @@ func c02(r *core.Run) {
 	// ---- A2 (shared with C01) ---------------------------------------------
 	c01Enqueue(r, a, e)
 	// ---- O1 --------------------------------------------------------------
-	c02Listener(r, a, root)
+	c02Listener(r, "O1", a, root)
+	// ---- H1 (shared with C01) ---------------------------------------------
+	c01Restart(r, "H1", a, root)
 	// ---- W1 --------------------------------------------------------------
 	c02With(r, a, root)
 }
@@ -429,7 +432,7 @@ func c02Drain(r *core.Run, a *svcAnchors) {
 	}
 }
 
-func c02Listener(r *core.Run, a *svcAnchors, root []*ssa.Function) {
+func c02Listener(r *core.Run, rule string, a *svcAnchors, root []*ssa.Function) {
 	p := r.P
 	// handleRequest: the function containing the closure that calls processRequest and hands it to enqueue;
 	// structurally: a declared function with a *nats.Msg parameter that calls enqueue.
@@ -455,13 +458,13 @@ func c02Listener(r *core.Run, a *svcAnchors, root []*ssa.Function) {
 		}
 	}
 	if len(handlers) != 1 {
-		r.Unres("O1", "handleRequest", fmt.Sprintf("%d candidates", len(handlers)))
+		r.Unres(rule, "handleRequest", fmt.Sprintf("%d candidates", len(handlers)))
 		return
 	}
 	h := handlers[0]
 	for _, c := range core.Calls(h) {
 		if c.Common().StaticCallee() == a.Enqueue {
-			r.Check(!core.IsGo(c) && !core.IsDefer(c), "O1", core.FuncName(h), "enqueue-call-is-plain", p.InstrPos(c), "the message handler submits synchronously", "the message handler submits with go/defer: requests of one channel can be enqueued out of order")
+			r.Check(!core.IsGo(c) && !core.IsDefer(c), rule, core.FuncName(h), "enqueue-call-is-plain", p.InstrPos(c), "the message handler submits synchronously", "the message handler submits with go/defer: requests of one channel can be enqueued out of order")
 		}
 	}
 	var listener *ssa.Function
@@ -479,11 +482,11 @@ func c02Listener(r *core.Run, a *svcAnchors, root []*ssa.Function) {
 			}
 		}
 		okc := recv && !core.IsGo(c) && !core.IsDefer(c)
-		r.Check(okc, "O1", core.FuncName(l), "calls-handleRequest-from-receive-loop", p.InstrPos(c), "request handling is called synchronously from the loop receiving on the channel parameter", "request handling is started with go, or called from outside the channel receive loop")
+		r.Check(okc, rule, core.FuncName(l), "calls-handleRequest-from-receive-loop", p.InstrPos(c), "request handling is called synchronously from the loop receiving on the channel parameter", "request handling is started with go, or called from outside the channel receive loop")
 		listener = l
 	}
 	if listener == nil {
-		r.Bad("O1", core.FuncName(h), "has-listener", p.Pos(h.Pos()), "the message handler has no static caller")
+		r.Bad(rule, core.FuncName(h), "has-listener", p.Pos(h.Pos()), "the message handler has no static caller")
 		return
 	}
 	n := 0
@@ -501,10 +504,10 @@ func c02Listener(r *core.Run, a *svcAnchors, root []*ssa.Function) {
 				}
 			}
 		}
-		r.Check(c.Parent() == a.Serve && !core.IsGo(c) && same, "O1", core.FuncName(c.Parent()), "listener-started-by-plain-call-on-in-channel", p.InstrPos(c),
+		r.Check(c.Parent() == a.Serve && !core.IsGo(c) && same, rule, core.FuncName(c.Parent()), "listener-started-by-plain-call-on-in-channel", p.InstrPos(c),
 			"one listener, called synchronously by serve on the channel stored as the in-channel", "the listener is started with go / from another function / on a different channel than the in-channel")
 	}
-	r.Check(n == 1, "O1", core.FuncName(listener), "single-listener", p.Pos(listener.Pos()), "exactly one call site starts the listener", fmt.Sprintf("%d call sites start a listener: two listeners would interleave submissions", n))
+	r.Check(n == 1, rule, core.FuncName(listener), "single-listener", p.Pos(listener.Pos()), "exactly one call site starts the listener", fmt.Sprintf("%d call sites start a listener: two listeners would interleave submissions", n))
 }
 
 func c02With(r *core.Run, a *svcAnchors, root []*ssa.Function) {
